@@ -719,32 +719,44 @@ def replay(inp):
 
 
 MANIFEST_ENTRY = {
-    'technique': 'Lean 4 proof (field algebra over translator-generated Q/shift/dx arithmetic; character-law Fourier lemmas) '
-                 '+ model-vs-implementation correspondence + physical-oracle predicates on the real outputs',
+    'technique': 'Lean 4 proof (field algebra over translator-generated Q/shift/dx arithmetic; character-law Fourier lemmas; the '
+                 "Bluestein / matrix-DFT theorems of C01 applied to this check's own re-translation of the executor glue) + "
+                 'model-vs-implementation correspondence + physical-oracle predicates on the real outputs',
     'text': ('PROVED for all inputs (any field of scalars, any character e as the Fourier kernel, every array size/parity/shape): '
              'the pupil<->PSF spacing conversions are exact inverses; the per-axis Q that focus_fixed_sampling and '
              'unfocus_fixed_sampling hand to the transform satisfies 1/(n_a Q_a) = dx*dx_out/(lambda z) on BOTH axes; the shift '
-             'reaches the transform as shift/dx_out on both axes; with those constants every array element of the matrix-DFT model '
-             'is a unit phase times the physical focusing integral at ((k-M//2) dx_out - shift_y, (l-N//2) dx_out - shift_x) '
-             '(1-D per axis over the generated definitions, and 2-D for the whole model of either direction); the tilt theorem '
-             '(k waves across D move the focal field by exactly k lambda z/D, any real k); a point source unfocuses to the '
-             'corresponding tilt; p more output samples of shift translate the result by exactly p samples; the FFT route '
-             '(centred DFT of the origin-preserving zero pad) samples the same integral at (l-N//2)*dx_reported on axis 1 always, '
-             'and on axis 0 iff the padded array is square (exact characterisation of the known finding). '
-             'TRANSLATED from the current source each run: Q_for_sampling, pupil_sample_to_psf_sample, psf_sample_to_pupil_sample, '
-             'the Q/shift arithmetic of both fixed-sampling functions (symbolically executed up to the transform call, both method '
-             'branches required to receive the same arguments), which shape[k] feeds the dx reported by Wavefront.focus/unfocus, '
-             'the argument wiring of the Wavefront wrappers, and the shape of the FFT-route one-liners. '
-             'MODELLED AND COMPARED (not proved): that MatrixDFTExecutor / ChirpZTransformExecutor / scipy.fft compute the sums of '
-             'the model (complex values at 1e-9 on random fields, non-square shapes, shifts, both methods and directions), and the '
-             "property's own predicates on the real outputs (spot of a tilted aperture at k lambda f/D in the reported coordinates, "
-             'physical integral at reported coordinates, exact translation by shifts, spot -> tilt). '
-             'Also proved: fftshift(fft(ifftshift(x))) with NumPy\'s index rotations IS the centred DFT for every length, so the FFT '
-             'route is covered end to end on each axis under the contract that scipy.fft computes the DFT sum. '
-             'PARTIAL: FFT-route y-coordinate claims are restricted to square padded arrays (known finding fft-nonsquare-dx); '
-             'that the spot is the global maximum of |F| is proved for a flat pupil with any tilt and the actual kernel '
-             'exp(-2 pi i t) (spot_is_brightest_real), for other pupils it is only what the integral says.'),
+             'reaches the transform as shift/dx_out on both axes; a single int sample count is broadcast to (M, M) and the default '
+             'shift is zero; BOTH ENGINES over translated terms only: the matrix-DFT executor (wiring of shape/samples/shift to '
+             'rows and columns, exponent scalars, norms) and the chirp-Z executor (index glue of _prepare_czt_basis, chirp '
+             'constants, FFT convolution of any admissible length; inverse = conj o czt o conj), fed with the generated Q and '
+             'shift pairs, equal the model fixedSampling sample for sample (so the two methods are one function), and the array '
+             'the Lean driver prints is that model; every element of the model is norm * unit phase * the 2-D physical focusing '
+             'integral at ((k-M//2) dx_out - shift_y, (l-N//2) dx_out - shift_x), also written in the reported coordinates '
+             'fftrange(N)[l]*dx; tilt theorem (k waves across D move the focal field by exactly k lambda z/D, any real k) and spot '
+             'location on both axes at once; a point source unfocuses to the corresponding 2-D tilt; p more output samples of '
+             'shift (p any integer, either axis, either direction) translate the result by exactly p samples; FFT route: the '
+             'transform / rotation names read off the source of focus and unfocus give the centred DFT (every length), which '
+             'samples the integral at (l-N//2)*dx_reported on axis 1 always (focus and unfocus), spot location through the FFT '
+             'route, and in 2-D with the ortho norm and the pad offset of the source the y coordinate is (k-M//2) times the TRUE '
+             'axis-0 spacing, equal to the reported one iff the padded array is square (exact characterisation of the known '
+             'finding); for a flat tilted pupil and the actual kernel exp(-2 pi i t) the continuous |F| is maximal at k lambda f/D. '
+             'TRANSLATED from the current source each run (28 items): the three scalar conversions; the Q/shift/int-samples/'
+             'default-shift/return-value glue of both fixed-sampling functions by symbolic execution (both method branches must '
+             'receive the same arguments, the transform result must be returned untouched); which shape[k] feeds the dx of '
+             'Wavefront.focus/unfocus and what they return; argument wiring, int broadcast and returned container of the Wavefront '
+             'wrappers; transform and rotation names of the FFT one-liners; fftrange bounds; and the engine glue of fttools.py '
+             '(the items of tools/gen_c01.py re-emitted into Generated.C03). RECOGNISERS only (Bool facts, no arithmetic): '
+             'spaces of returned Wavefronts, norm=ortho, make_xy_grid / RichData.x,.y / Wavefront.intensity carrying shape and dx. '
+             'MODELLED AND COMPARED (not proved): that numpy/scipy execute the sums of the model (complex values at 1e-9 on fields '
+             'of dtype complex/float/int/bool in C, Fortran, transposed and strided layout, 1-sample axes included, every documented '
+             'spelling of sample counts and shifts, both methods and directions, purity of every call) and the property predicates '
+             'on the real outputs (analytic pattern of a tilted aperture and direct physical integral at the REPORTED coordinates, '
+             'complex at zero shift; brightest sample nearest to k lambda f/D; exact translation by shifts; spot -> tilt; dx, '
+             'wavelength, space and shape of every returned Wavefront). PARTIAL: FFT-route y-coordinate claims are restricted to '
+             'square padded arrays (known finding fft-nonsquare-dx); the phase of a SHIFTED single transform is left free (moduli '
+             'compared), its consistency between the legs is C05; "brightest array sample" is checked, only the continuous '
+             'maximum is proved.'),
     'note': ('Trusted: Lean kernel + propext/Classical.choice/Quot.sound; the ast->Lean translator (validated by running model vs '
-             'code each run); numpy/scipy primitives; float64 rounding (1e-9 tolerance, observed 1e-14). Not covered: cupy/torch '
-             'backends, float32 precision mode, energy normalisation (C02).'),
+             'code each run); numpy/scipy primitives (contract: fft = DFT sum); float64 rounding (1e-9 tolerance, observed 1e-14). '
+             'Not covered: cupy/torch backends, float32 precision mode, energy normalisation (C02), executor caches (C01).'),
 }
